@@ -333,6 +333,9 @@ class BGP(protocol.Protocol):
         """
         try:
             msg_update = Update().construct(msg, self.fourbytesas, self.add_path_ipv4_send)
+            if not msg_update:
+                # nothing of the request could be encoded (no known attribute, no prefix)
+                return False
             reactor.callFromThread(self.write_tcp_thread, msg_update)
             self.msg_sent_stat['Updates'] += 1
 
